@@ -384,7 +384,7 @@ Section Render.
       do st4 <- with_top st3 (fun s => append_subrender s sub p2 p2); fin st4
     | IBreak => do st1 <- with_top st new_line_hard; fin st1
     | ITable rows ncols =>
-      (* render_table_tree; note: pushed_style is never unwound for a table *)
+      (* render_table_tree *)
       let cell_est (c : rcell) : res est := est_kids d min_wrap (cell_content c) in
       let row_step (sizes : list est) (r : rrow) : res (list est) :=
           do res_ <- fold_left
@@ -425,7 +425,7 @@ Section Render.
                  then with_top st1 (fun s => add_horizontal_border_width s table_width)
                  else Ok st1);
       (* rows *)
-      fold_left
+      do st_rows <- fold_left
         (fun acc r =>
            do s <- acc;
            match r with
@@ -459,7 +459,8 @@ Section Render.
                             else Ok s8);
              unwind d prow s9
            end)
-        rows (Ok st2)
+        rows (Ok st2);
+      fin st_rows
     | ITableRow _ | ITableCell _ | ITableBody _ => Panic 60
     | IFragStart name =>
       do st1 <- with_top' st (fun s => record_frag_start s name); fin st1
